@@ -1,11 +1,15 @@
 """C07: only lowest candidates or sure losers are excluded; ties follow the tie order."""
 from props import countcheck as cc
 ORACLES = ['c07']
+def tweak(rng, e, o):
+    """the zero-vote crowd family is for wigm's defeat_batch=zero"""
+    if e.get('family') == 'zeros' and o['rule'] == 'wigm': o['defeat_batch'] = 'zero'
 def run(chk, ctx):
     chk.cov['rule'] = ("tie-rich random elections (incl. a directed family where two candidates tie at stage 3+ after their order crossed, and sure-loser batches with pending surpluses) x all rules x arithmetics x random tie orders; scope: actions, statuses and raw tallies; oracle: "
                        "single exclusion is lowest (within surplus for Meek, lowest quotient for QPQ), batches are sure losers leaving enough "
                        "candidates, largest surplus first, every tie logged and resolved by tie order (Scottish: prior stage), and "
                        "tie-order independence when no tie is logged (the count is re-run under a permuted tie order)")
     cc.run(chk, ctx, 'values', ORACLES + ['c07_independence'], 1000, 100000, families=['tie', 'tie', 'tie', 'cross', 'coalition', 'small', 'nearquota', 'mid'],
-           extra=[('directed-batch', 1500, 60000, ['wigm-prf-batch', 'wigm-prf-batch', 'cfer-batch', 'cfer-batch', 'meek', 'mpls', 'warren'], ['coalition'])])
+           extra=[('directed-batch', 1500, 60000, ['wigm-prf-batch', 'wigm-prf-batch', 'cfer-batch', 'cfer-batch', 'meek', 'mpls', 'warren'], ['coalition']),
+                  ('directed-zero-batch', 300, 20000, ['wigm', 'wigm', 'wigm', 'wigm-prf-batch', 'cfer-batch'], ['zeros'])], tweak=tweak)
 def replay(chk, payload): return cc.replay(chk, payload, ORACLES + ['c07_independence'])
